@@ -271,7 +271,13 @@ pub fn run(o: &Opts) -> Report {
                    ("13C", "/CLSTIME/0915-1300"), ("13C", "/SNDTIME/1200-1359"), ("13C", "/RNCTIME/2359+1400"), ("13C", "/CLSTIME/0000+1459"), ("13C", "/SNDTIME/0000-0000"),
                    ("13D", "2403151200-1300"), ("13D", "2402292359+1459"), ("13D", "0001010000-1359"),
                    ("61", "2412311231C250,00NTRFCUSTREF0001\nSEE HTTP//BANK.EXAMPLE/ADV"), ("61", "240229D0,01NMSC//B"), ("61", "2402290301RCA123456789012,45S999NONREF//1234567890123456\n/X//Y/"),
-                   ("30", "240229"), ("30", "000229"), ("30", "491231"), ("30", "500101")] {
+                   ("30", "240229"), ("30", "000229"), ("30", "491231"), ("30", "500101"),
+                   // a one-digit number of days (written with its leading zero), currencies of every precision incl. ones the
+                   // scenarios never use (two decimals for HUF / ISK history, none for JPY, three for BHD, four for CLF)
+                   ("23", "USD07NOTICE"), ("23", "EUR01NOTICE"), ("23", "GBP99NOTICE"), ("23", "CHFCURRENT"),
+                   ("32A", "240315HUF2500000,00"), ("32A", "240315HUF1234567,50"), ("32B", "HUF1,05"), ("33B", "HUF100,"), ("62F", "C240315HUF1234,56"),
+                   ("64", "C240315HUF0,99"), ("60F", "D240315HUF77,10"), ("32B", "ISK1000,"), ("32B", "BHD1,005"), ("32B", "CLF1,0005"), ("32B", "JPY5,"),
+                   ("71F", "HUF12,50"), ("71G", "HUF3,"), ("34F", "HUFD150,25"), ("90C", "5HUF1000,50"), ("90D", "3HUF99,95")] {
         let v = pool.by_tag.entry(t.to_string()).or_default();
         if !v.contains(&c.to_string()) {
             v.push(c.to_string());
